@@ -18,8 +18,9 @@ def run(filter_=None, repo='/repo'):
         groups = [filter_]
     else:
         # one cargo-kani process per packet module, one per checksum harness (those dominate the run time)
-        mods = sorted(set(h['harness'].split('_')[0] for h in table_ if not h['harness'].endswith('_checksum') and h['harness'] != 'pseudo6_swap'))
-        groups = ['%s_axioms::' % m for m in mods] + ['cksum_axioms::' + h['harness'] for h in table_ if h['harness'].endswith('_checksum') or h['harness'] == 'pseudo6_swap']
+        CK = ['ip4_header_checksum', 'tcp_ipv4_checksum', 'tcp_ipv6_checksum', 'udp_ipv4_checksum', 'udp_ipv6_checksum', 'icmp_checksum', 'icmpv6_checksum', 'pseudo6_swap']
+        mods = sorted(set(h['harness'].split('_')[0] for h in table_ if h['harness'] not in CK))
+        groups = ['%s_axioms::' % m for m in mods] + ['cksum_axioms::' + h for h in CK]
     t0 = time.time()
     # build once (the other processes then only wait for the lock and reuse the artefacts)
     first = subprocess.run(base + ['--harness', groups[0]], cwd=crate, env=env, stdout=subprocess.PIPE, stderr=subprocess.STDOUT)
@@ -58,38 +59,40 @@ def run(filter_=None, repo='/repo'):
                'bounded': sum(1 for r in res if r.get('kind') == 'bounded' and r['status'] == 'SUCCESSFUL'),
                'wall_s': round(time.time() - t0, 1), 'cmd': 'cd kani/pnet_axioms && ' + ' '.join(cmd), 'results': res,
                'tail': out[-1500:] if not ok else ''}
-    os.makedirs(os.path.join(VERIF, 'build'), exist_ok=True)
-    json.dump(summary, open(os.path.join(VERIF, 'build', 'kani_pnet.json'), 'w'), indent=1)
+    if not filter_:
+        summary['key'] = _key(crate, repo)
+        os.makedirs(os.path.join(VERIF, 'build'), exist_ok=True)
+        json.dump(summary, open(os.path.join(VERIF, 'build', 'kani_pnet.json'), 'w'), indent=1)
     return summary
+
+def _key(crate, repo):
+    import hashlib
+    h = hashlib.sha256()
+    h.update(open(os.path.join(crate, 'src', 'lib.rs'), 'rb').read())
+    h.update(open(os.path.join(repo, 'Cargo.lock'), 'rb').read())
+    return h.hexdigest()
 
 def run_cached(repo='/repo'):
     """Re-uses build/kani_pnet.json when it was produced from identical harness source and lock file
     (the pnet source itself is the immutable registry copy pinned by the lock file)."""
-    import hashlib
     gen_kani_pnet.gen()
     crate = os.path.join(VERIF, 'kani', 'pnet_axioms')
-    h = hashlib.sha256()
-    h.update(open(os.path.join(crate, 'src', 'lib.rs'), 'rb').read())
-    h.update(open(os.path.join(repo, 'Cargo.lock'), 'rb').read())
-    key = h.hexdigest()
+    key = _key(crate, repo)
     p = os.path.join(VERIF, 'build', 'kani_pnet.json')
     if os.path.exists(p):
         try:
             s = json.load(open(p))
-            if s.get('key') == key and s.get('ok') and not s.get('filter'):
+            if s.get('key') == key and s.get('ok'):
                 s['reused'] = True
                 return s
         except Exception:
             pass
-    s = run(None, repo)
-    s['key'] = key
-    json.dump(s, open(p, 'w'), indent=1)
-    return s
+    return run(None, repo)
 
 if __name__ == '__main__':
     f = None
     if '--filter' in sys.argv: f = sys.argv[sys.argv.index('--filter') + 1]
-    s = run(f)
+    s = run(f) if f else run_cached()
     print('kani pnet axioms: %d/%d harnesses verified (%d complete, %d bounded) in %.0fs' % (s['successful'], s['harnesses'], s['complete'], s['bounded'], s['wall_s']))
     for r in s['results']:
         if r['status'] != 'SUCCESSFUL': print('  FAILED', r['harness'], r['failed_checks'][:2])
